@@ -586,7 +586,7 @@ func solveClosed(cx *fnExec, t Term, dir string) string {
 	return "unknown"
 }
 
-var splitSuffixRe = regexp.MustCompile(`(\[[^\]]*\])+$`)
+var splitSuffixRe = regexp.MustCompile(`(@ret\d+)?(\[[^\]]*\])*$`)
 
 // replayAll: try to confirm each refuted obligation on the real code.
 func (r *Report) replayAll(dir string) {
